@@ -31,7 +31,7 @@
      ta_setitem (ta_setitem_old)     TimeArray.__setitem__ (248-253)
      ut_convert, ut_check, ut_convert_check, ut_iop, follow_shift, rebind_scaled, ut_imul
                                      UniformTime._convert_and_check_uniformity, __iadd__/__isub__,
-                                     _follow_shift, __imul__ (after c4c4884, 9a1272e)
+                                     _follow_shift, __imul__ (after c4c4884, 9a1272e, c3a0f82)
      np_derive, view_of              objects derived through numpy: ufunc results, copy.copy, deepcopy,
                                      np.copy(subok=True), views (attribute slots by reference)
      follow_shift_aug, ut_iop_aug    the seeded augmented-assignment variant of _follow_shift (refuted)
@@ -320,13 +320,13 @@ Definition scalar_of (l : loc) : M (Z * Z) :=      (* value and conversion facto
   i <- arr_info l ;;
   match a_data i with [z] => ret (z, kind_cf (a_kind i)) | _ => raise EOther end.
 
-(* UniformTime._convert_and_check_uniformity (timeseries.py 759-785, after c4c4884 and 9a1272e):
+(* UniformTime._convert_and_check_uniformity (after c4c4884, 9a1272e and c3a0f82):
    the operand is converted out of place (ut_convert); a 1-d operand must have constant
    increments and must leave a positive sampling interval (ut_check); nothing is written *)
 Definition ut_convert (cf : Z) (v : pyval) : M loc :=
   h <- has_cf v ;;
   match h, v with
-  | Some _, PRef l => ret l
+  | Some _, PRef l => i <- arr_info l ;; astype l (a_dt i)     (* np.array(val): a private copy (c3a0f82) *)
   | _, _ =>
       a <- asarray v ;;
       i <- arr_info a ;;
